@@ -279,3 +279,13 @@ void apply_ops(const Json::Value& ops) {
 }
 
 } // namespace vh
+
+#ifdef VERIF_COV
+// coverage builds only (bin/coverage): the drivers leave through _exit() on purpose, which would skip gcov's
+// at-exit dump; flush the counters first.
+extern "C" void __gcov_dump(void);
+extern "C" [[noreturn]] void _exit(int code) {
+  __gcov_dump();
+  _Exit(code);
+}
+#endif
